@@ -227,6 +227,24 @@ def main():
             maps_replaced = "some true"
         elif writes:
             maps_replaced = "some false"
+    # suspend_threads: a `retain` over suspend_thread (every thread approached once, the kept ones stay in order)?
+    st = re.search(r"pub fn suspend_threads\(.*?\n    \}\n", pdsrc, re.S)
+    uses_retain = "none"
+    if st:
+        body = st.group(0)
+        if re.search(r"self\.threads\.retain\(\|\w+\|\s*match\s+Self::suspend_thread\(\w+\.tid\)", body) and not re.search(r"\.remove\(|\.swap_remove\(|\.drain\(|while |for ", body):
+            uses_retain = "some true"
+        elif "suspend_thread(" in body:
+            uses_retain = "some false"
+    # dump(): is the "no thread left" test made on the list as it is after suspend_threads?
+    mwsrc = read("src/linux/minidump_writer.rs")
+    ntl = "none"
+    m_s = re.search(r"dumper\.suspend_threads\(", mwsrc)
+    m_e = re.search(r"if\s+dumper\.threads\.is_empty\(\)\s*\{\s*soft_errors\.push\(WriterError::SuspendNoThreadsLeft", mwsrc)
+    if m_s and m_e:
+        ntl = "some true" if m_s.start() < m_e.start() else "some false"
+    elif m_s and "SuspendNoThreadsLeft" in mwsrc:
+        ntl = "some false" if re.search(r"let\s+\w+\s*=\s*dumper\.threads\.is_empty\(\)", mwsrc[:m_s.start()]) else "none"
     out = []
     out.append("/- GENERATED by gen/extract.py from /repo's source — do not edit. -/")
     out.append("namespace Mdw.Src\n")
@@ -251,6 +269,8 @@ def main():
     out.append(f"\n/-- the crash-context thread's stack is gathered with `MaxStackLen::None` (none = not recognisable) -/\ndef crashThreadUnlimited : Option Bool := {crash_unlimited}")
     out.append(f"\n/-- an application region's descriptor is the location of the bytes that were copied (none = not recognisable) -/\ndef appDescriptorOfCopy : Option Bool := {app_desc}")
     out.append(f"\n/-- `enumerate_mappings` assigns the aggregation of the memory map to the dumper's list — it does not add to what an earlier `init` left there (none = not recognisable) -/\ndef enumerateMappingsReplaces : Option Bool := {maps_replaced}")
+    out.append(f"\n/-- `suspend_threads` is a `retain` over `suspend_thread`, with no other loop or removal (none = not recognisable) -/\ndef suspendUsesRetain : Option Bool := {uses_retain}")
+    out.append(f"\n/-- `dump()` tests for an empty thread list *after* `suspend_threads` and reports `SuspendNoThreadsLeft` then (none = not recognisable) -/\ndef noThreadsLeftAfterSuspend : Option Bool := {ntl}")
     out.append("\nend Mdw.Src\n")
     text = "\n".join(out)
     os.makedirs(os.path.dirname(OUT), exist_ok=True)
